@@ -37,6 +37,7 @@ THEOREMS = [
     "Verif.C10.bin_width",
     "Verif.C10.windowed_is_mean",
     "Verif.C10.psd_bin0",
+    "Verif.C10.parseval_one_sided",
 ]
 RULE = "filled in below"
 TRUSTED = [
